@@ -55,6 +55,8 @@ def gen(ctx):
         s = sc.gen_dag(ctx.rng, kinds=["scale", "lin", "step", "next", "prev", "dfix", "dpull", "sum"])
     else:
         s = sc.gen_ring(ctx.rng, resolved=True)
+    if r < 0.6 and ctx.rng.random() < 0.3:
+        s = sc.add_branching_adapter(ctx.rng, s)   # a pass-through adapter with two targets (finalized once?)
     if ctx.rng.random() < 0.2:
         starts = [c["start"] for c in s["comps"] if c["kind"] == "time"]
         s["end"] = min(starts) + ctx.rng.choice([0, 1])  # end at / just after the start
@@ -72,6 +74,11 @@ def corpus():
          "links": [{"src": 0, "out": 0, "dst": 1, "ads": [["lin"]]}], "order": [1, 0], "end": 7},
         {"comps": [{"kind": "time", "start": 0, "steps": [2]}, {"kind": "time", "start": 0, "steps": [5]}],
          "links": [{"src": 0, "out": 0, "dst": 1, "ads": [["scale"], ["prev"]]}], "order": [0, 1], "end": 0},
+        # adapters that fan out: src >> Scale >> Scale >> {sink1, sink2}
+        {"comps": [{"kind": "time", "start": 0, "steps": [1]}, {"kind": "time", "start": 0, "steps": [2]},
+                   {"kind": "time", "start": 0, "steps": [3]}],
+         "links": [{"src": 0, "out": 0, "dst": 1, "ads": [["scale"], ["scale"]]},
+                   {"src": 0, "out": 0, "dst": 2, "ads": [], "via": 0}], "order": [0, 1, 2], "end": 6},
     ]
 
 
